@@ -17,7 +17,7 @@ def set_epoch(it, e):
 
 def run(ck):
     prog = ck.program('incentive', 'white_whale_std')
-    for order in ('close_then_snapshot', 'snapshot_then_close'):
+    for order in ('close_then_snapshot', 'snapshot_then_close', 'snapshot_then_expand'):
         def body(it, order=order):
             c = it.ctx
             st = setup_inc(it, 'native', epoch=E - 1)
@@ -38,9 +38,13 @@ def run(ck):
             if order == 'close_then_snapshot':
                 call('bob', it.mkv(IX, 'ClosePosition', unbonding_duration=Db))
                 call('anyone', it.mkv(IX, 'TakeGlobalWeightSnapshot'))
-            else:
+            elif order == 'snapshot_then_close':
                 call('anyone', it.mkv(IX, 'TakeGlobalWeightSnapshot'))
                 call('bob', it.mkv(IX, 'ClosePosition', unbonding_duration=Db))
+            else:   # a position change AFTER the snapshot counts from the next epoch on: this epoch's shares still use this epoch's weights
+                call('anyone', it.mkv(IX, 'TakeGlobalWeightSnapshot'))
+                x = c.sym('x', 128, lo=1); c.assume(x <= 2**100)
+                call('alice', it.mkv(IX, 'ExpandPosition', amount=U128(x), unbonding_duration=Da, receiver=NONE()), [COIN(st['lp'], x)])
             shares = []
             for who in ('alice', 'bob'):
                 q = enter(it, 'incentive', 'query', env, None, it.mkv(I + 'QueryMsg', 'CurrentEpochRewardsShare', address=Str(who)))
@@ -60,4 +64,4 @@ def run(ck):
             else:
                 ck.oblige('C13.snapshot.shares_le_one.' + order, p, sa + sb > E18, 'shares of all addresses add up to at most 100%')
         ck.require(n >= 1, 'snapshot.%s: no complete path' % order)
-    ck.bounds.update(snapshot='history of depth 4 + 2 share queries: two users + symbolic rest, one epoch boundary, snapshot before / after a close')
+    ck.bounds.update(snapshot='history of depth 4 + 2 share queries: two users + symbolic rest, one epoch boundary, snapshot before / after a close, snapshot before an expansion')
